@@ -55,4 +55,31 @@ theorem filter_absent (l : List Fd) (fd : Fd) (h : l.contains fd = false) : l.fi
     simp only [List.filter_cons, h1, ↓reduceIte]
     rw [ih h.2]
 
+/-! ### token uniqueness -/
+def tokA : Option Sets → Nat | some _ => 1 | none => 0
+def tokS : SPc → Nat | .selecting _ => 1 | .selected _ => 1 | _ => 0
+def tokL : LPc → Nat | .handling _ _ => 1 | _ => 0
+
+@[simp] theorem tokA_some (a : Sets) : tokA (some a) = 1 := rfl
+@[simp] theorem tokA_none : tokA none = 0 := rfl
+@[simp] theorem tokS_idle : tokS .idle = 0 := rfl
+@[simp] theorem tokS_exited : tokS .exited = 0 := rfl
+@[simp] theorem tokS_selecting (a : Sets) : tokS (.selecting a) = 1 := rfl
+@[simp] theorem tokS_selected (a : Sets) : tokS (.selected a) = 1 := rfl
+@[simp] theorem tokL_fresh : tokL .fresh = 0 := rfl
+@[simp] theorem tokL_running : tokL .running = 0 := rfl
+@[simp] theorem tokL_handling (a b : List Fd) : tokL (.handling a b) = 1 := rfl
+@[simp] theorem tokL_closing : tokL .closing = 0 := rfl
+@[simp] theorem tokL_joining : tokL .joining = 0 := rfl
+@[simp] theorem tokL_joined : tokL .joined = 0 := rfl
+@[simp] theorem tokL_closed : tokL .closed = 0 := rfl
+
+theorem tokA_zero {a : Option Sets} (h : tokA a = 0) : a = none := by
+  cases a <;> simp_all
+
+/-- number of places that currently hold "the right to run one select": arguments posted in `_select_args`, the
+selector thread between taking them and reporting, a `_handle_select` callback queued on the loop, the loop thread
+inside `_handle_select`. -/
+def tokens (s : St) : Nat := tokA s.args + tokS s.spc + s.queue.length + tokL s.lpc
+
 end TornadoModel.C40
